@@ -130,6 +130,7 @@ type State struct {
 	nclock     int
 	timers     bool
 	frozen     bool
+	timersMap  map[int]int
 	inQuiesce  bool
 	forced     *Trans
 	model      Model // a model of pc (nil: unknown)
@@ -172,6 +173,12 @@ func (e *Engine) clone(s *State) *State {
 	c.quiesce = append([]*FuncV(nil), s.quiesce...)
 	if s.race != nil {
 		c.race = s.race.clone()
+	}
+	if s.timersMap != nil {
+		c.timersMap = make(map[int]int, len(s.timersMap))
+		for k, v := range s.timersMap {
+			c.timersMap[k] = v
+		}
 	}
 	s.gen = e.newGen()
 	c.gen = e.newGen()
